@@ -33,8 +33,9 @@ type c07Case struct {
 	SecLen   int      `json:"secret_len"`
 	SPI      int      `json:"spi_pair"`
 	Pat      int      `json:"pattern"`
-	Via      string   `json:"via"`            // raw | proposal
-	Then     *c07Case `json:"then,omitempty"` // a second derivation after which the first SA is inspected again
+	Via      string   `json:"via"`                                 // raw | proposal
+	Then     *c07Case `json:"then,omitempty"`                      // a second derivation after which the first SA is inspected again
+	LZ       bool     `json:"leading_zero_public_value,omitempty"` // twoparty: the responder's first draw is an exponent whose public value starts with a zero octet
 }
 
 var spiPairs = [][2]uint64{{0, 0}, {1, 2}, {1 << 63, ^uint64(0)}, {^uint64(0), 0}}
@@ -159,6 +160,9 @@ func runC07(c *engine.Ctx) {
 					}
 					tp := base
 					tp.K, tp.NonceLen, tp.SPI, tp.Pat = "twoparty", 64, 1, 2
+					lz := tp
+					lz.LZ = true
+					evalC07TwoParty(c, lz)
 					evalC07TwoParty(c, tp)
 				}
 			}
@@ -293,6 +297,37 @@ func evalC07(c *engine.Ctx, cs c07Case) {
 			return
 		}
 		c.Count("rederivations_checked", 1)
+		// a refused call (no shared secret / no nonces) on the established object leaves keys and objects as they are
+		for _, bad := range [][2][]byte{{nil, secret2}, {nonce2, nil}} {
+			var err3 error
+			if pi := engine.Catch(func() { err3 = sa.GenerateKeyForIKESA(bad[0], bad[1], 1, 2) }); pi != nil {
+				c.Violate(pi.Sig(), "refused GenerateKeyForIKESA panics: "+pi.Value, cs)
+				return
+			}
+			if err3 == nil {
+				break // accepted: nothing to say about this input
+			}
+			if sig, what := checkSA(sa, want2, p, ig); sig != "" {
+				c.Violate("refused-rederive-alters-sa/"+sig, fmt.Sprintf("after a refused GenerateKeyForIKESA (error %q) on an established IKESAKey object: %s", errStr(err3), what), cs)
+				return
+			}
+		}
+		// the object is keyed a third time after the negotiated suite changed (other PRF / integrity / key size:
+		// other key lengths in the same fields)
+		cs3 := cs
+		cs3.PRF, cs3.Integ, cs3.Encr = (cs.PRF+1)%3, (cs.Integ+2)%3, (cs.Encr+1+cs.NonceLen%2)%3
+		other := infoSA(cs3)
+		sa.PrfInfo, sa.IntegInfo, sa.EncrInfo = other.PrfInfo, other.IntegInfo, other.EncrInfo
+		p3, ig3, el3 := ref.PRFs[cs3.PRF], ref.Integs[cs3.Integ], ref.EncrKeyLens[cs3.Encr]
+		var err4 error
+		if pi := engine.Catch(func() { err4 = sa.GenerateKeyForIKESA(nonce, secret, si, sr) }); pi != nil || err4 != nil {
+			c.Violate("rederive-error/other-suite", fmt.Sprintf("GenerateKeyForIKESA on an object keyed before under another suite: %v %v", pi, err4), cs)
+			return
+		}
+		if sig, what := checkSA(sa, ref.DeriveIKE(p3, ig3, el3, nonce, secret, si, sr), p3, ig3); sig != "" {
+			c.Violate("rederive/other-suite/"+sig, fmt.Sprintf("object keyed under prf=%s integ=%s aes=%d, then under prf=%s integ=%s aes=%d: %s", p.Digest, ig.Digest, el*8, p3.Digest, ig3.Digest, el3*8, what), cs)
+			return
+		}
 		// continue with a fresh object for the remaining clauses
 		sa = infoSA(cs)
 		if err := sa.GenerateKeyForIKESA(nonce, secret, si, sr); err != nil {
@@ -358,6 +393,10 @@ func evalC07TwoParty(c *engine.Ctx, cs c07Case) {
 
 	seam := engine.NewSeam(nil, nil)
 	seam.Stream = uint64(100 + cs.PRF*18 + cs.Integ*6 + cs.Encr*2 + cs.DH)
+	if cs.LZ {
+		// read 0 is the initiator's draw, read 1 the responder's: the latter is a chosen exponent
+		seam.Script = [][]byte{nil, c09LeadingZeroExponent(cs.DH).FillBytes(make([]byte, 256))}
+	}
 	restore := engine.Install(seam)
 	defer restore()
 	var a *big.Int
